@@ -4,7 +4,7 @@
 //! barrel x lane sets (IB: every subset of lanes 0..8 of size <= 4; ML/OL: legal set, one missing, one extra) x
 //! chip lists (id = lane / != lane, 2 chips; OB 7 chips in configured order, 6, 8, permuted, with and without
 //! custom checks) x bunch counters (equal / one chip differs / one lane differs) x hit contents (every sequence of
-//! length <= 2 (3 thorough) over a 10-symbol hit alphabet with adversarial bytes) x splits of the frame over pages;
+//! length <= 2 (3 thorough) over a 11-symbol hit alphabet with adversarial bytes) x splits of the frame over pages;
 //! and every sequence of up to 3 frames in which each lane is normal / announces a fatal state / is absent
 //! (fatal-lane memory). Oracle: the documented rules, at the frame start offset.
 use crate::val::{self, CfgKey, Mode};
@@ -769,7 +769,7 @@ pub fn run(tier: Tier) -> i32 {
     rep.cov("distinct_nontrivial", json!(flagged));
     rep.cov("hit_content_cases", json!(hit_cases.len()));
     rep.cov("exhaustive", json!(true));
-    rep.cov("rule", json!("IB: all 255 lane subsets of size <= 4; chip id / count / bunch-counter variants; every hit sequence of length <= 2 (3 thorough) over a 10-symbol alphabet on a valid and on an invalid frame, with splits over pages and a preceding no-data TDH in rotation; ML/OL layers 3..6: legal, one lane missing, one extra, 6/8 chips, permuted order, chip / lane bunch counter differs, with and without custom chip count/order; every sequence of <= 2 (3 thorough) IB frames with each lane normal / fatal / absent"));
+    rep.cov("rule", json!("IB: all 255 lane subsets of size <= 4; chip id / count / bunch-counter variants; every hit sequence of length <= 2 (3 thorough) over a 11-symbol alphabet on a valid and on an invalid frame, with splits over pages and a preceding no-data TDH in rotation; ML/OL layers 3..6: legal, one lane missing, one extra, 6/8 chips, permuted order, chip / lane bunch counter differs, with and without custom chip count/order; every sequence of <= 2 (3 thorough) IB frames with each lane normal / fatal / absent"));
     rep.sample(json!({"case": cs[300.min(cs.len() - 1)].label}));
     rep.sample(json!({"case": cs[cs.len() - 1].label}));
     rep.assume("abstained (documents do not settle it): frames in which a lane that announced a fatal state is itself present (in the announcing frame or later)");
